@@ -22,13 +22,13 @@ import (
 )
 
 type scenario struct {
-	Root       string   `json:"root"`  // path of the root .bop file
-	API        string   `json:"api"`   // Generate | Validate | Format | ReadFile
-	Opts       []string `json:"opts"`  // generator options
-	Mode       string   `json:"mode"`  // separate | combined
-	Spare      int      `json:"spare"` // spare capacity given to each slice of the File
-	Goroutines int      `json:"goroutines"`
-	Repeat     int      `json:"repeat"`
+	Root       string     `json:"root"`  // path of the root .bop file
+	API        string     `json:"api"`   // Generate | Validate | Format | ReadFile
+	Opts       []string   `json:"opts"`  // generator options
+	Mode       string     `json:"mode"`  // separate | combined
+	Spare      int        `json:"spare"` // spare capacity given to each slice of the File
+	Goroutines int        `json:"goroutines"`
+	Repeat     int        `json:"repeat"`
 	Pre        [][]string `json:"pre"` // option sets Generate is called with, sequentially, before the measured calls (history)
 }
 
